@@ -287,14 +287,19 @@ static Plan minimise(const PropModule &m, Plan p, const std::string &cls, double
             }
         }
     }
-    // 3. simplify cfg: drop keys (fall back to defaults)
+    // 3. simplify cfg: drop keys (fall back to defaults).  A configuration key changes WHAT is simulated, not how much of it: a plan without it
+    //    must still show the very same signature, not merely some violation of the same class (a defaulted configuration can be a different story)
+    std::string sig0;
+    { g_min_execs++; ChildOutcome o = run_in_child(m, p, cls == "crash:hang" ? 5 : 60); Verdict v = verdict_of(o); if (v.bad && v.cls == cls) { sig0 = v.sig; } }
     std::vector<std::string> keys;
     for (auto &kv : p.cfg) { keys.push_back(kv.first); }
     for (auto &k : keys) {
-        if (out_of_budget()) { break; }
+        if (out_of_budget() || sig0.empty()) { break; }
         if (k == "ver" || k == "suite") { continue; }   // keep what the signature context is derived from
         Plan q = p; q.cfg.erase(k);
-        if (still_fails(m, q, cls)) { p = q; }
+        g_min_execs++;
+        ChildOutcome o = run_in_child(m, q, cls == "crash:hang" ? 5 : 60); Verdict v = verdict_of(o);
+        if (v.bad && v.cls == cls && v.sig == sig0) { p = q; }
     }
     return p;
 }
